@@ -3,7 +3,7 @@
 // missing-value mask is SYMBOLIC (every given/missing pattern), the per-feature view and the flattened view of every
 // feature agree with the stored values under the documented encodings, missing cells are NaN / -1, targets equal the
 // stored target, and the column bookkeeping is consistent.
-// config: f=<kinds of the input features>;n=<samples>;cls=<classes of 's' features>;rep=<1: sample list reversed with a repetition>
+// config: f=<kinds of the input features>;n=<samples>;cls=<classes of 's' features>;rep=<1: sample list reversed with a repetition>;bad=<1: labels of 's' features range over [-70000,70000]>
 //   kinds: a int8, b uint16, c int32, d int64, e float32, r float64, s single-label (cls classes), m multi-label (3 labels)
 #include "sbv.h"
 #include <cmath>
@@ -24,6 +24,8 @@ struct symstore_t final : datasource_t
     std::vector<std::vector<int64_t>> I; ///< [sample][feature]: integer value / label / label bit set
     std::vector<std::vector<double>>  D; ///< [sample][feature]: floating point value (kinds e, r and the target)
     std::vector<std::vector<int>>     G; ///< [sample][feature]: given (1) or missing (0)
+    bool                              bad{false};
+    int                               rejected_wrongly{0}, accepted_wrongly{0};
 
     symstore_t(std::string k, tensor_size_t samples, tensor_size_t cls)
         : datasource_t("symstore")
@@ -53,7 +55,10 @@ struct symstore_t final : datasource_t
                 case 'b': iv = sbv_range("u16", 0, 65535); break;
                 case 'c': iv = sbv_range("i32", -2147483647LL - 1, 2147483647LL); break;
                 case 'd': iv = sbv_range("i64", -(1LL << 52), 1LL << 52); break; // exactly representable as float64
-                case 's': iv = sbv_range("label", 0, classes - 1); break;
+                case 's':
+                    // bad=1: ANY int32 label; the out-of-range ones must be rejected by set() and leave the cell missing
+                    iv = bad ? sbv_range("label", -70000, 70000) : sbv_range("label", 0, classes - 1);
+                    break;
                 case 'm': iv = sbv_range("hits", 0, 7); break;
                 case 'e':
                 {
@@ -113,6 +118,22 @@ struct symstore_t final : datasource_t
                 }
                 else if (k == 'e') set(s, fi, static_cast<float>(dv));
                 else if (k == 'r') set(s, fi, dv);
+                else if (k == 's' && bad)
+                {
+                    const bool valid = iv >= 0 && iv < classes;
+                    bool       threw = false;
+                    try
+                    {
+                        set(s, fi, iv);
+                    }
+                    catch (...)
+                    {
+                        threw = true;
+                    }
+                    if (valid && threw) rejected_wrongly = 1;
+                    if (!valid && !threw) accepted_wrongly = 1;
+                    if (threw) G[static_cast<size_t>(s)][f] = 0; // a rejected value leaves the cell missing
+                }
                 else set(s, fi, iv);
             }
     }
@@ -133,8 +154,14 @@ extern "C" void sbv_harness(const char*)
     const tensor_size_t cls = sbv_cfg("cls", 3);
 
     symstore_t src(kinds, n, cls);
+    src.bad = sbv_cfg("bad", 0) != 0;
     src.make_symbolic();
     src.load();
+    if (src.bad)
+    {
+        sbv_check(!src.accepted_wrongly, "a label outside [0, classes) is rejected with an exception (any int32 label)");
+        sbv_check(!src.rejected_wrongly, "a label inside [0, classes) is accepted");
+    }
     dataset_t ds(src, 1);
     ds.add<sclass_identity_generator_t>();
     ds.add<mclass_identity_generator_t>();
